@@ -405,7 +405,99 @@ func EntryLockset(fn *ssa.Function) LockSet { return entryLockset(fn, 0) }
 
 var elBusy = map[*ssa.Function]bool{}
 
+// runnerLockset: fn is a function literal that is only handed to a helper of the module which does nothing with it
+// but call it (s.locked(func(){…})): what that helper holds when it makes the call, in the literal's own terms.
+func runnerLockset(fn *ssa.Function, depth int) (LockSet, bool) {
+	par := fn.Parent()
+	if par == nil || depth > 4 {
+		return nil, false
+	}
+	var common LockSet
+	n := 0
+	bad := false
+	AllInstrs(par, func(in ssa.Instruction) {
+		mk, ok := in.(*ssa.MakeClosure)
+		if !ok || mk.Fn != ssa.Value(fn) || mk.Referrers() == nil {
+			return
+		}
+		for _, r := range *mk.Referrers() {
+			if _, isDbg := r.(*ssa.DebugRef); isDbg {
+				continue
+			}
+			site, isCall := r.(*ssa.Call)
+			if !isCall {
+				bad = true
+				continue
+			}
+			h := site.Call.StaticCallee()
+			if h == nil || len(h.Blocks) == 0 || !curProgRoot(h) {
+				bad = true
+				continue
+			}
+			for ai, a := range site.Call.Args {
+				if a != ssa.Value(mk) || ai >= len(h.Params) {
+					continue
+				}
+				q := h.Params[ai]
+				if q.Referrers() == nil {
+					bad = true
+					continue
+				}
+				heldIn := MustHeld(h, entryLockset(h, depth+1))
+				for _, qr := range *q.Referrers() {
+					if _, isDbg := qr.(*ssa.DebugRef); isDbg {
+						continue
+					}
+					qc, isQC := qr.(*ssa.Call)
+					if !isQC || qc.Call.Value != ssa.Value(q) {
+						bad = true
+						continue
+					}
+					// the helper's names → the call site's names (the literal sees its parent's variables by name)
+					tr := LockSet{}
+					for m, kind := range heldIn[qc] {
+						for pi, hp := range h.Params {
+							if pi >= len(site.Call.Args) {
+								break
+							}
+							pn := PN(hp)
+							if m == pn || strings.HasPrefix(m, pn+".") {
+								tr[Desc(site.Call.Args[pi])+strings.TrimPrefix(m, pn)] = kind
+							}
+						}
+						if !strings.Contains(m, ".") {
+							tr[m] = kind
+						}
+					}
+					if n == 0 {
+						common = tr
+					} else {
+						for m, kind := range common {
+							if tr[m] != kind {
+								delete(common, m)
+							}
+						}
+					}
+					n++
+				}
+			}
+		}
+	})
+	if bad || n == 0 {
+		return nil, false
+	}
+	return common, true
+}
+
 func entryLockset(fn *ssa.Function, depth int) LockSet {
+	if depth <= 4 && !elBusy[fn] && fn.Parent() != nil && !Eligible(fn) {
+		elBusy[fn] = true
+		ls, ok := runnerLockset(fn, depth)
+		delete(elBusy, fn)
+		if ok {
+			return ls
+		}
+	}
 	if depth > 4 || elBusy[fn] || !Eligible(fn) {
 		return LockSet{}
 	}
